@@ -30,6 +30,7 @@ MANIFEST = {
             "(cache key ignores the URL) is recorded: theorem stated with the hypothesis, refutation lemma proved.",
 }
 KEY18 = "cache-shared-across-servers:clients with org=None, fid=None and different url"
+KEYTEXT = "cache-shared-across-servers:different (org, fid) rendering to the same '<org>-<fid>' text"
 STEPS = {"exists": "SExists", "openread": "SOpenRead", "net": "SNet", "mkstemp": "SMkstemp", "write": "SWrite", "flush": "SFlush", "fsync": "SFsync",
          "close": "SClose", "replace": "SReplace", "opentrunc": "SOpenTrunc", "kill": "SNone", "spawn": "SNone"}
 URLS = ["https://fi0.example/ofx", "https://fi1.example/ofx"]
@@ -42,12 +43,12 @@ def translate():
 
 # ------------------------------------------------------------------ cases
 def cfg_key(c):
-    return (c[1], c[2])
+    """cache key of a configuration [url, org index, fid index]: the file it renders to (what the model's key_of stands for)."""
+    return H.model_key(c[1], c[2])
 
 
 def cache_name(c):
-    of = lambda n, pre: "None" if n is None else "%s%d" % (pre, n)
-    return "%s-%s.profrs" % (of(c[1], "ORG"), of(c[2], "FID"))
+    return H.cache_file(c[1], c[2])
 
 
 class Gen:
@@ -186,12 +187,27 @@ def gen_servers(rng, n):
              ("same-fi", (0, 1, 1), (0, 1, 1)),
              ("other-fi-same-url", (0, 1, 1), (0, 2, 2)),
              ("other-fi-other-url", (0, 1, 1), (1, 2, 2)),
-             ("none-same-url", (0, None, None), (0, None, None))]
+             ("none-same-url", (0, None, None), (0, None, None)),
+             # identities as request_profile's path construction really meets them (H.ORGS / H.FIDS)
+             ("dotted-org-other-fid", (0, 3, 3), (1, 3, 4)),          # fi.cfg: [ms] msdw.com/1235, [msbank] msdw.com/14137
+             ("dashed-org-other-fid", (0, 4, 8), (1, 4, 5)),          # HFS-Cavion with two FIDs
+             ("odd-characters", (0, 6, 6), (1, 8, 7)),                # BB&T/BB&T, 'T. Rowe Price'/SWBTX
+             ("dots-and-unicode", (0, 9, 11), (1, 13, 11)),           # non-ASCII ORG, leading dot, FID 12.50
+             ("dotted-org-dotted-fid", (0, 7, 11), (1, 7, 8)),        # tiaa-cref.org/12.50 vs tiaa-cref.org/0417
+             ("same-text-other-pair", (0, 11, 9), (1, 12, 10))]       # ('a-b','c') and ('a','b-c') both render 'a-b-c.profrs'
+    for _ in range(2 * n):
+        # random pairs sharing the ORG, the FID, or nothing
+        o1, f1 = rng.randrange(1, len(H.ORGS)), rng.randrange(1, len(H.FIDS))
+        how = rng.choice(["org", "org", "fid", "none"])
+        o2 = o1 if how == "org" else rng.randrange(1, len(H.ORGS))
+        f2 = f1 if how == "fid" else rng.randrange(1, len(H.FIDS))
+        if (o1, f1) != (o2, f2) and H.cache_file(o1, f1) != H.cache_file(o2, f2):
+            pairs.append(("random-share-" + how, (0, o1, f1), (1, o2, f2)))
     for name, a, b in pairs:
         g = Gen(rng, "servers-" + name)
         g.seq(g.call(a, "newer"), g.call(b, "uptodate"), g.call(b, "newer"), g.call(a, "uptodate"))
         out.append(g.case())
-        for _ in range(n):
+        for _ in range(2 if name.startswith("random-") else n):
             g = Gen(rng, "servers-" + name)
             g.seq(*[g.call(rng.choice([a, b]), rng.choice(["newer", "newer", "same", "older", "uptodate", "uptodate", "errstatus", "transport"])) for _ in range(rng.choice([2, 3, 4, 5]))])
             out.append(g.case())
@@ -263,9 +279,8 @@ def run_death_case(case, workdir):
     cachedir = H.set_datadir(workdir)
     table = build_profiles(case)
     cfg = case["cfg"]; name = cache_name(cfg); url = URLS[cfg[0]]
-    of = lambda n, pre: None if n is None else "%s%d" % (pre, n)
     fails = []
-    new_client = lambda: L.OFXClient(url, org=of(cfg[1], "ORG"), fid=of(cfg[2], "FID"))
+    new_client = lambda: L.OFXClient(url, org=H.org_str(cfg[1]), fid=H.fid_str(cfg[2]))
     if case["filled"]:
         with H.FakeNet(lambda rq: H.Resp(body=table[1])):
             new_client().request_profile()
@@ -332,8 +347,7 @@ def run_case(case, workdir):
     def client_for(c):
         k = tuple(c["cfg"])
         if c["new_client"] or k not in clients:
-            of = lambda n, pre: None if n is None else "%s%d" % (pre, n)
-            clients[k] = L.OFXClient(URLS[k[0]], org=of(k[1], "ORG"), fid=of(k[2], "FID"))
+            clients[k] = L.OFXClient(URLS[k[0]], org=H.org_str(k[1]), fid=H.fid_str(k[2]))
         return clients[k]
 
     def responder(rq):
@@ -442,8 +456,10 @@ def run_case(case, workdir):
                     else:
                         own = sent.get(url, [])
                         if pid not in own:
-                            key = KEY18 if (c["cfg"][1] is None and c["cfg"][2] is None) else "cache-shared-across-servers:other"
-                            fail(key, "call %d of the client for %s returned profile %d, which that server never sent (it was cached from another server under %s)"
+                            twins = [cc for cc in calls if cache_name(cc["cfg"]) == name and tuple(cc["cfg"][1:]) != tuple(c["cfg"][1:])]
+                            key = (KEY18 if (c["cfg"][1] is None and c["cfg"][2] is None) else
+                                   (KEYTEXT if twins else "cache-shared-across-servers:other"))
+                            fail(key, "call %d of the client for %s returned profile %d, which that server never sent (it was cached from another server; this client's own cache file is %s)"
                                  % (n, url, pid, name), call=n)
                         elif not concurrent:
                             newest = None
@@ -529,7 +545,8 @@ def c_case(case, obs):
     for kind, n in obs["events"]:
         c = calls[n]
         if kind == "spawn":
-            evs.append("(ESpawn (Cfg %d %s %s))" % (c["cfg"][0], c_optn(c["cfg"][1]), c_optn(c["cfg"][2])))
+            k = cfg_key(c["cfg"])
+            evs.append("(ESpawn (Cfg %d %s %s))" % (c["cfg"][0], c_optn(k[0]), c_optn(k[1])))
         elif kind == "kill":
             evs.append("(EKill %d%%nat)" % pos[n])
         else:
